@@ -370,9 +370,11 @@ def peeling_rule(prog: Program, rep, RID: str):
     augs = [a for s in subs for a in ast.walk(s) if isinstance(a, ast.AugAssign)]
     # `t = t - x` is read like `t -= x` (the plain form does not touch the value object the caller's graph shares: C18.R1)
     for s in subs:
+        ldefs_ = {st_.targets[0].id: st_.value for st_ in ast.walk(s) if isinstance(st_, ast.Assign) and len(st_.targets) == 1 and isinstance(st_.targets[0], ast.Name)}
         for a in ast.walk(s):
             if isinstance(a, ast.Assign) and len(a.targets) == 1 and isinstance(a.targets[0], ast.Subscript) and isinstance(a.value, ast.BinOp) and \
-                    isinstance(a.value.op, (ast.Sub, ast.Add)) and norm(a.value.left) == norm(a.targets[0]):
+                    isinstance(a.value.op, (ast.Sub, ast.Add)) and \
+                    norm(ldefs_.get(a.value.left.id, a.value.left) if isinstance(a.value.left, ast.Name) else a.value.left) == norm(a.targets[0]):
                 augs.append(ast.copy_location(ast.AugAssign(target=a.targets[0], op=a.value.op, value=a.value.right), a))
     if len(subs) != 1 or len(augs) != 1 or not isinstance(subs[0].target, ast.Name):
         raise AnalysisError(f"{key}: subtraction loop not recognised")
